@@ -196,35 +196,6 @@ theorem part_declares_none (ht : TextOK s) {Q : Mod} (hQ : Q ∈ s.parts) {a : S
     rw [List.find?_eq_none] at h
     exact h g h2 ha
 
-/-- One step (include, belongs-to) from a part of the split set leads to a part. -/
-theorem step_part {R R' : Registry} {L' : List Nat} (ht : TextOK s) (hr : RegsOK s R R') {Q t : Mod}
-    (hQ : Q ∈ s.parts) (h : Spec.Uses.Step R' L' Q t) : t ∈ s.parts := by
-  cases h with
-  | @incl i hm hl hi hf =>
-    rcases part_cases hQ with rfl | hsb
-    · have h1 : some t ∈ (s.owner.stmt.all "include").map (fun i => R'.findModule true i) :=
-        List.mem_map.2 ⟨i, hi, hf⟩
-      rw [hr.owner_includes] at h1
-      obtain ⟨t', ht', e⟩ := List.mem_map.1 h1
-      cases e
-      exact sub_part ht'
-    · unfold Mod.includes at hi
-      rw [hr.sub_no_include Q hsb] at hi
-      cases hi
-  | owner hm hs hb =>
-    rcases part_cases hQ with rfl | hsb
-    · rw [owner_isSub ht] at hs; cases hs
-    · rw [ht.sub_belongs Q hsb, Option.bind_some, getModule_m hr] at hb
-      cases hb
-      exact owner_part s
-
-/-- Everything reached from a part is a part. -/
-theorem reach_part {R R' : Registry} {L' : List Nat} (ht : TextOK s) (hr : RegsOK s R R') {P x : Mod}
-    (hP : P ∈ s.parts) (h : Reach R' L' P x) : x ∈ s.parts := by
-  induction h with
-  | refl => exact hP
-  | tail _ hs ih => exact step_part ht hr ih hs
-
 end parts
 
 /-! ## 4. search orders -/
@@ -338,97 +309,6 @@ theorem bindTop_other (hr : RegsOK s R R') {x : Mod} (hx : x ∈ R.mods) (hne : 
   cases declares x.stmt a with
   | none => exact bindRel_none s R
   | some g => exact bindRel_other hx hne g [x.stmt]
-
-/-- Top-level binding from a part of the split set against top-level binding in `m`. -/
-theorem bindTop_part (ht : TextOK s) (hr : RegsOK s R R') (hv : Visible s R' L') {P : Mod} (hP : P ∈ s.parts)
-    (a : String) : BindRel s R (bindTop R' L' P a) (bindTop R L s.m a) := by
-  rw [bindTop_R hr hr.m_mem, found_cons]
-  cases hd : declares s.m.stmt a with
-  | none =>
-    have : bindTop R' L' P a = none := by
-      rw [bindTop_eq_found]
-      refine found_none fun x hx => ?_
-      exact part_declares_none ht (reach_part ht hr hP (visit_reach R' L' _ P [] x hx)) hd
-    rw [this]
-    exact bindRel_none s R
-  | some g₀ =>
-    have hmem : g₀ ∈ s.m.stmt.all "grouping" := by
-      unfold declares at hd
-      exact List.mem_of_find?_eq_some hd
-    have harg : g₀.arg = a := (declares_spec hd).2.2
-    obtain ⟨Q, hQ, hb⟩ := hv P hP g₀ hmem
-    rw [harg, hd] at hb
-    rw [hb]
-    exact bindRel_part (inner := []) hQ g₀
-
-/-- What an import statement of a part resp. of `m` leads to. -/
-theorem import_rel (ht : TextOK s) (hr : RegsOK s R R') (hv : Visible s R' L') (i : Stmt) (a : String) :
-    BindRel s R ((R'.findModule false i).bind fun x => bindTop R' L' x a)
-      ((R.findModule false i).bind fun x => bindTop R L x a) := by
-  rw [findModule_split hr]
-  cases hf : R.findModule false i with
-  | none => exact bindRel_none s R
-  | some y =>
-    have hy : y ∈ R.mods := findModule_mem hf
-    simp only [Option.map_some, Option.bind_some]
-    by_cases h : y.seq = s.m.seq
-    · have : y = s.m := seq_inj hr hy hr.m_mem h
-      subst this
-      rw [repl_m]
-      exact bindTop_part ht hr hv (owner_part s) a
-    · rw [repl_other h]
-      exact bindTop_other hr hy h a
-
-theorem bind_part (s : Split) (R R' : Registry) (L L' : List Nat) (ht : TextOK s) (hr : RegsOK s R R')
-    (hl : LinkOK s R L L') (hv : Visible s R' L') (P : Mod) (hP : P ∈ s.parts) (inner : List Stmt) (name : String) :
-    BindRel s R (bindGrouping R' L' P inner name) (bindGrouping R L s.m inner name) := by
-  unfold bindGrouping
-  simp only []
-  rw [localName_congr (part_prefix ht hP) name]
-  generalize localName s.m name = nm
-  cases hb : isBare nm with
-  | true =>
-    simp only [if_true]
-    rcases bindLexical_cases nm inner with h | ⟨g, sc, h⟩
-    · rw [h P, h s.m]
-      exact bindTop_part ht hr hv hP nm
-    · rw [h P, h s.m]
-      exact bindRel_part hP g sc
-  | false =>
-    simp only [Bool.false_eq_true, if_false]
-    rw [part_isModuleStmt ht hP, part_linked hr hl hP, m_isModuleStmt ht, hl.m_linked, part_imports ht hP]
-    simp only [Bool.and_self, if_true]
-    refine findSome?_rel (fun i => ?_) _
-    split
-    · exact import_rel ht hr hv i _
-    · exact bindRel_none s R
-
-theorem bind_other (s : Split) (R R' : Registry) (L L' : List Nat) (ht : TextOK s) (hr : RegsOK s R R')
-    (hl : LinkOK s R L L') (hv : Visible s R' L') (x : Mod) (hx : x ∈ R.mods) (hne : x.seq ≠ s.m.seq)
-    (inner : List Stmt) (name : String) :
-    BindRel s R (bindGrouping R' L' x inner name) (bindGrouping R L x inner name) := by
-  unfold bindGrouping
-  simp only []
-  generalize localName x name = nm
-  cases hb : isBare nm with
-  | true =>
-    simp only [if_true]
-    rcases bindLexical_cases nm inner with h | ⟨g, sc, h⟩
-    · rw [h x]
-      exact bindTop_other hr hx hne nm
-    · rw [h x]
-      exact bindRel_other hx hne g _
-  | false =>
-    simp only [Bool.false_eq_true, if_false]
-    rw [hl.same x hx]
-    cases (isModuleStmt x.stmt && L.contains x.seq) with
-    | false => exact bindRel_none s R
-    | true =>
-      simp only [if_true]
-      refine findSome?_rel (fun i => ?_) _
-      split
-      · exact import_rel ht hr hv i _
-      · exact bindRel_none s R
 
 end main
 
